@@ -1,7 +1,7 @@
 """C13 — rotation of a circular record is a lossless group action"""
 import gen
 import impl
-from wire import CRec, feats_to_json, feats_from_json, positions
+from wire import CRec, feats_to_json, feats_from_json, positions, site_positions
 
 TABLES = []
 LAKE_TARGETS = ["Moclo.Props.C13"]
@@ -9,6 +9,8 @@ THEOREMS = ["Moclo.C13." + t for t in [
     "rotate_right_moves_last_letters_to_front", "letter_position", "rotations_compose",
     "multiple_of_length_is_identity", "left_inverts_right", "right_inverts_left",
     "track_follows_sequence", "feature_follows_sequence", "record_carried", "record_features"]]
+# reductions under which a failing case stays a case of this property (see shrink.py)
+SHRINK = {"lists": ["feats"], "ints": ["k", "k2", "m"]}
 RULE = ("random records (length 1..40 with a tail to 400, mixed case / IUPAC letters) with feature tables "
         "(simple, compound, origin-spanning, over-the-end, negative, whole-length source, all strands) and a "
         "per-letter track, rotated by k in [-3n, 3n] and composed with a second rotation; non-trivial = "
@@ -18,17 +20,18 @@ ASSUMPTIONS = ["feature parts are well formed: -n < s < n, s < e <= s+n, 0 < e (
 
 
 def denot(feats, n):
-    return [(f.ftype, f.qual, positions(f.parts, n)) for f in feats]
+    return [(f.ftype, f.qual, positions(f.parts, n), site_positions(f.parts, n)) for f in feats]
 
 
 def shifted(den, k, n):
-    return [(t, q, sorted(((p + k) % n, st) for (p, st) in ps)) for (t, q, ps) in den]
+    return [(t, q, sorted(((p + k) % n, st) for (p, st) in ps), sorted(((p + k) % n, st) for (p, st) in ss))
+            for (t, q, ps, ss) in den]
 
 
 def gen_case(rng):
     wd = gen.word(rng)
     n = len(wd)
-    return {"word": wd, "feats": feats_to_json(gen.gen_features(rng, n)),
+    return {"word": wd, "feats": feats_to_json(gen.gen_features(rng, n, sites=True)),
             "track": [rng.randrange(100) for _ in range(n)],
             "k": rng.randint(-3 * n, 3 * n), "k2": rng.randint(-2 * n, 2 * n),
             "m": rng.randint(-3, 3)}
@@ -60,7 +63,8 @@ def check_case(ctx, case):
         ctx.fail("after >> {} some feature is not attached to the same nucleotides: {} vs expected {}".format(
             k, d_out, shifted(d_in, k, n)), case, key=None)
     for label, rr in (("r >> {}".format(k), cout), ("(r >> {}) >> {}".format(k, k2), impl.canon_record((rec >> k) >> k2))):
-        bad = [(s, e) for ft in rr.feats for (s, e, _) in ft.parts if not (-n < s < n and s < e <= s + n and e > 0)]
+        bad = [(s, e) for ft in rr.feats for (s, e, _) in ft.parts
+               if not ((-n < s < n and s < e <= s + n and e > 0) or (s == e and 0 <= s <= n))]
         if bad:
             ctx.fail("{} yields the location [{}, {}) on a record of length {}: not a stretch Biopython can read "
                      "(extract() gives nothing for it)".format(label, bad[0][0], bad[0][1], n), case)
